@@ -116,6 +116,18 @@ func VerifyMerkle(block *pb.InternalBlock) error {
 		if !(bytes.Equal(merkleRoot, block.MerkleRoot)) {
 			return errors.New("merkle root is wrong, block id:" + utils.F(blockid) + ",block merkle root:" + utils.F(block.MerkleRoot) + ", make merkle root:" + utils.F(merkleRoot))
 		}
+		// The merkle_tree list is covered by neither the block id nor the signature, but the
+		// ledger stores it as received and rebuilds a stored block's body from its leaves: a
+		// list whose leaves are reordered, replaced or missing gives a block that verifies on
+		// arrival and comes back from storage with another body (or cannot be read at all).
+		if len(block.MerkleTree) != len(merkleTree) {
+			return errors.New("merkle tree is wrong, block id:" + utils.F(blockid))
+		}
+		for i := range merkleTree {
+			if !bytes.Equal(block.MerkleTree[i], merkleTree[i]) {
+				return errors.New("merkle tree is wrong, block id:" + utils.F(blockid))
+			}
+		}
 		return nil
 	} else {
 		return errors.New("can not make merkle tree , block id:" + utils.F(blockid))
